@@ -13,9 +13,9 @@ from typing import Any
 from .. import e2e, gens
 from ..common import Hang, Rng, hx, unhx, watchdog
 from ..runner import Check
-from ..translate import esc
+from ..translate import enum_sites, esc
 from ..translate import unicode as uni
-from . import c07
+from . import c07, enum_callers
 from .c07 import Cfg, parser_kwargs, yaml_safe_json
 
 # ---------------------------------------------------------------- JSON scalar values on the wire
@@ -74,6 +74,7 @@ class Case:
     values: list
     varnames: list | None = None
     default: Any = dataclasses.field(default_factory=lambda: NO_DEFAULT)
+    via: str = "property"  # position of the enum keyword in the document = which caller of parse_enum meets it (enum_callers.POSITIONS)
 
     def schema(self) -> dict:
         s: dict[str, Any] = {"enum": self.values}
@@ -98,6 +99,8 @@ class Case:
         d = {"type": self.ty, "enum": self.values, "x-enum-varnames": self.varnames}
         if self.default is not NO_DEFAULT:
             d["default"] = self.default
+        if self.via != "property":
+            d["via"] = self.via
         return d
 
 
@@ -223,7 +226,8 @@ def campaign_parse(ck: Check, n: int) -> None:
     t0 = time.time()
     rng = ck.rng.fork("parse")
     cases = [(gen_case(rng, with_default=True), rng.choice(ENUM_CFGS) if rng.chance(1, 2) else Cfg()) for _ in range(n)]
-    cases = CORPUS_PARSE + cases
+    # (the systematic scope of reserved-name spellings ties the initial excludes read off the JSON Schema call site to its behaviour)
+    cases = CORPUS_PARSE + [(Case("string", vals), cfg) for vals, cfg, _, pos in enum_callers.systematic_scope() if pos == "property"] + cases
     replies = ck.driver.run([f"enum.parse {cfg.sx()} {c.sx()}" for c, cfg in cases])
     find_reqs, find_meta = [], []
     for (case, cfg), rep in zip(cases, replies):
@@ -301,6 +305,66 @@ def campaign_literal(ck: Check, n: int) -> None:
     camp.wall_s = time.time() - t0
 
 
+def real_gql_parse(names: list[str], cfg: Cfg, timeout: float = 5.0) -> tuple[str, list[str]]:
+    """GraphQLParser.parse_raw() on `enum E { names }`: the members (name, default) of the Enum model in Parser.results, and the order
+    in which the parser met the value names (the sorted schema of graphql-core: library behaviour, handed to the model)"""
+    import graphql
+
+    from datamodel_code_generator.model.enum import Enum as EnumModel
+    from datamodel_code_generator.parser.graphql import GraphQLParser
+
+    text = enum_callers.build("graphql", {"enum": names}).source
+    try:
+        order = list(graphql.lexicographic_sort_schema(graphql.build_schema(text)).type_map["E"].values)
+        with watchdog(timeout), warnings.catch_warnings():
+            warnings.simplefilter("ignore")
+            p = GraphQLParser(text, **parser_kwargs(cfg))
+            p.parse_raw()
+        ems = [m for m in p.results if isinstance(m, EnumModel)]
+    except Hang:
+        return "fuel", []
+    except Exception as e:  # noqa: BLE001
+        return f"rejected {type(e).__name__}", []
+    if len(ems) != 1:
+        return f"unexpected {len(ems)} enum models", order
+    return "ok" + "".join(f" {hx(f.name)} {enc_default(f.default)}" for f in ems[0].fields), order
+
+
+def campaign_gql(ck: Check, n: int) -> None:
+    camp = ck.campaign("enum.gql (Model.Enum.parseGraphqlEnum: the GraphQL call site of the enum resolver, started from the excludes read off "
+                       "the source) vs the members of the Enum model in GraphQLParser.results")
+    t0 = time.time()
+    rng = ck.rng.fork("gql")
+    cases: list[tuple[list[str], Cfg]] = [(vals, cfg) for vals, cfg, _, pos in enum_callers.systematic_scope() if pos == "graphql"]
+    for _ in range(n):
+        if rng.chance(2, 3):
+            vals = enum_callers.gen_reserved_values(rng, rng.range(1, 6), graphql=True)
+        else:
+            vals = list(dict.fromkeys("".join(rng.choice(["a", "B", "_", "1", "x", "Y", "__", "mro", "Mro", "class", "None"]) for _ in range(rng.range(1, 3)))
+                                      for _ in range(rng.range(1, 5))))
+            vals = [v for v in vals if enum_callers.GRAPHQL_NAME.match(v) and v not in ("true", "false", "null")]
+        if vals:
+            cases.append((vals, rng.choice(enum_callers.ENUM_NAME_CFGS) if rng.chance(3, 4) else rng.choice(ENUM_CFGS)))
+    reals = [real_gql_parse(vals, cfg) for vals, cfg in cases]
+    replies = ck.driver.run([f"enum.gql {cfg.sx()} ({' '.join(hx(x) for x in order)})" for (_, cfg), (_, order) in zip(cases, reals)])
+    for (vals, cfg), (impl, order), rep in zip(cases, reals, replies):
+        camp.evaluations += 1
+        inp = {"type": "string", "enum": vals, "via": "graphql", "cfg": cfg.label(), "cfg_fields": dataclasses.asdict(cfg), "order": order}
+        camp.hit("result:" + impl.split(" ")[0])
+        if not impl.startswith("ok"):
+            camp.unmodelled += 1
+            continue
+        names = [unhx(t) for t in impl.split(" ")[1::2]]
+        if any(a != b for a, b in zip(names, order)):
+            camp.hit("renamed")
+            camp.distinct.add(json.dumps(inp, sort_keys=True))
+        if rep != impl:
+            ck.disagree(camp, inp, rep, impl)
+        elif len(camp.samples) < 2 and names != order:
+            camp.samples.append({**inp, "members": names})
+    camp.wall_s = time.time() - t0
+
+
 CORPUS_PARSE = [
     (Case(None, [1, None, "x", True, 1.0]), Cfg()),
     (Case("string", ["a", None, "mro", "name", "value", "a'b\\"]), Cfg()),
@@ -319,14 +383,23 @@ CORPUS_PARSE = [
 
 
 # ---------------------------------------------------------------- end-to-end oracle
-def find_literal_args(tp) -> list | None:
-    """arguments of the first typing.Literal found inside an annotation"""
+def find_literal_args(tp, depth: int = 0) -> list | None:
+    """arguments of the first typing.Literal found inside an annotation; a root model (`class E(RootModel[Literal[…]])`, the
+    form a NAMED enum schema takes in literal mode) is looked through"""
     if typing.get_origin(tp) is typing.Literal:
         return list(typing.get_args(tp))
     for a in typing.get_args(tp):
-        r = find_literal_args(a)
+        r = find_literal_args(a, depth)
         if r is not None:
             return r
+    if isinstance(tp, type) and depth < 3 and not issubclass(tp, pyenum.Enum):
+        try:
+            hints = typing.get_type_hints(tp)
+        except Exception:  # noqa: BLE001
+            return None
+        for attr in ("root", "__root__"):
+            if attr in hints:
+                return find_literal_args(hints[attr], depth + 1)
     return None
 
 
@@ -360,18 +433,23 @@ def classify_default(case: Case) -> str:
 
 
 def e2e_case(ck: Check, camp, case: Case, cfg: Cfg, model: str, opts: dict) -> None:
-    """enum list → document → real generate() → import → Enum members / Literal arguments / default"""
+    """enum list → document with the enum at position `case.via` → real generate() → import → Enum members / Literal
+    arguments / default"""
     from datamodel_code_generator import LiteralType
 
     camp.evaluations += 1
     camp.hit("kind:" + model)
     camp.hit("type:" + json.dumps(case.ty))
+    camp.hit("via:" + case.via)
     inp = {**case.as_input(), "cfg": cfg.label(), "cfg_fields": dataclasses.asdict(cfg), "model": model, "opts": opts}
     base = {"oracle": "e2e_enum", "kind": model, "trigger": classify(case, opts)}
+    if case.via != "property":
+        base["via"] = case.via
     gopts = {**parser_kwargs(cfg), **{k: v for k, v in opts.items() if k != "enum_field_as_literal"}}
     if opts.get("enum_field_as_literal"):
         gopts["enum_field_as_literal"] = LiteralType(opts["enum_field_as_literal"])
-    res = e2e.run_generate(yaml_safe_json(case.doc()), model=model, opts=gopts, timeout=10.0)
+    built = enum_callers.build(case.via, case.schema())
+    res = e2e.run_generate(built.source, input_file_type=built.input_file_type, model=model, opts={**gopts, **built.opts}, timeout=10.0)
     if res.hang:
         ck.fail({**base, "mechanism": "hang"}, inp, "generate() did not return within 10 s")
         return
@@ -407,35 +485,51 @@ def e2e_case(ck: Check, camp, case: Case, cfg: Cfg, model: str, opts: dict) -> N
                 cl["trigger"] = "nfkc_member_name"  # C07's D21: distinct strings, one identifier after Python's NFKC normalisation
             elif model == "pydantic_v2.BaseModel" and cfg.snake and cfg.cap:
                 cl["trigger"] = "v2_snake_after_capitalise"
+        elif (isinstance(e, ValueError) and "'mro'" in str(e) and base["trigger"] == "none"
+              and model == "pydantic_v2.BaseModel" and cfg.snake and cfg.cap):
+            cl["trigger"] = "v2_snake_after_capitalise_mro"  # known finding C09-F7: the re-lowered name is `mro`
         ck.fail(cl, inp, f"importing the emitted module raised {type(e).__name__}: {str(e)[:200]}")
         return
     try:
         camp.distinct.add(json.dumps(inp, sort_keys=True, default=str))
         enums = [c for c in vars(mod).values() if isinstance(c, type) and issubclass(c, pyenum.Enum) and c.__module__ == mod.__name__]
-        hints = typing.get_type_hints(mod.M)
+        holder = getattr(mod, built.holder, None) if built.holder else None
+        try:
+            hints = typing.get_type_hints(holder) if holder is not None else {}
+        except Exception as e:  # noqa: BLE001
+            if non_null:
+                ck.fail({**base, "mechanism": "values"}, inp, f"the annotations of {built.holder} cannot be evaluated: {type(e).__name__}: {str(e)[:120]}")
+                return
+            # an enum that lists only null, named and referred to with --use-union-operator: `E = None`, `e: E | None` — there is no
+            # value an Enum / Literal could list (C09 says nothing); that `None | None` cannot be evaluated is a matter of C13
+            camp.hit("only_null:annotation_unevaluable")
+            hints = {}
         lit = find_literal_args(hints.get("e"))
         if enums:
             camp.hit("as:enum")
-            if len(enums) != 1:
-                ck.fail({**base, "mechanism": "values"}, inp, f"{len(enums)} Enum classes emitted for one enum keyword")
+            literal_mode = model == "typing.TypedDict" or bool(opts.get("enum_field_as_literal"))
+            if len(enums) < built.n_enums and literal_mode:
+                camp.hit("as:enum_and_unobserved_literal")  # schemas under `paths`: one keyword became a Literal, the other an Enum class
+            elif len(enums) != built.n_enums:
+                ck.fail({**base, "mechanism": "values"}, inp, f"{len(enums)} Enum classes emitted for {built.n_enums} enum keyword(s)")
                 return
-            E = enums[0]
-            got = [typed(m.value) for m in E]
-            want = [typed(v) for v in non_null]
-            if opts.get("use_subclass_enum") and case.ty == "number":
-                # class E(float, Enum): JSON has a single number type, 1 and 1.0 are the same JSON value
-                want = [typed(float(v)) if isinstance(v, int) and not isinstance(v, bool) else typed(v) for v in non_null]
-            if sorted(got) != sorted(want):  # the property speaks of the *set* of values
-                ck.fail({**base, "mechanism": "values"}, inp, f"values of list({E.__name__}) are {got!r}, the schema's non-null entries are {want!r}")
-            elif len(E.__members__) != len(non_null):
-                ck.fail({**base, "mechanism": "names"}, inp, f"{len(E.__members__)} member names for {len(non_null)} values")
-            for nm in E.__members__:
-                if not nm.isidentifier() or keyword.iskeyword(nm) or nm.startswith("_"):
-                    ck.fail({**base, "mechanism": "names"}, inp, f"member name {nm!r} is not a legal public identifier")
+            for E in enums:
+                got = [typed(m.value) for m in E]
+                want = [typed(v) for v in non_null]
+                if opts.get("use_subclass_enum") and case.ty == "number":
+                    # class E(float, Enum): JSON has a single number type, 1 and 1.0 are the same JSON value
+                    want = [typed(float(v)) if isinstance(v, int) and not isinstance(v, bool) else typed(v) for v in non_null]
+                if sorted(got) != sorted(want):  # the property speaks of the *set* of values
+                    ck.fail({**base, "mechanism": "values"}, inp, f"values of list({E.__name__}) are {got!r}, the schema's non-null entries are {want!r}")
+                elif len(E.__members__) != len(non_null):
+                    ck.fail({**base, "mechanism": "names"}, inp, f"{len(E.__members__)} member names for {len(non_null)} values")
+                for nm in E.__members__:
+                    if not nm.isidentifier() or keyword.iskeyword(nm) or nm.startswith("_"):
+                        ck.fail({**base, "mechanism": "names"}, inp, f"member name {nm!r} is not a legal public identifier")
             if opts.get("use_subclass_enum"):
                 camp.hit("mixin_enum:not_observed")  # the str/int/float mixin converts the values: outside the model
-            else:
-                MODEL_OBS.append((case, cfg, [encj(m.value) for m in E], inp))
+            elif case.via != "graphql":
+                MODEL_OBS.append((case, cfg, [encj(m.value) for m in enums[0]], inp))
         elif lit is not None:
             camp.hit("as:literal")
             got = [typed(v) for v in lit]
@@ -448,20 +542,26 @@ def e2e_case(ck: Check, camp, case: Case, cfg: Cfg, model: str, opts: dict) -> N
             # only null entries: the set of non-null values is empty, so there is nothing an Enum / Literal could list
             # (literal mode renders the member as None); the null-acceptance clause below still applies
             camp.hit("as:none_only")
+        elif holder is None and (model == "typing.TypedDict" or opts.get("enum_field_as_literal")):
+            # literal mode at a position without an annotated member (root schema, schemas under `paths`): the Literal sits in a
+            # root type / alias; not observed here (the property-position cases observe literal mode)
+            camp.hit("as:literal_unobserved")
+            return
         else:
             ck.fail({**base, "mechanism": "values"}, inp, f"neither an Enum class nor a Literal annotation was emitted; e: {hints.get('e')!r}")
             return
         # a null entry makes the member optional (pydantic kinds can be asked directly)
-        if None in case.values and model.startswith("pydantic"):
+        if None in case.values and model.startswith("pydantic") and holder is not None and case.via in ("property", "definition", "openapi", "openapi_def"):
             try:
                 if model == "pydantic_v2.BaseModel":
-                    mod.M.model_validate({"e": None})
+                    holder.model_validate({"e": None})
                 else:
-                    mod.M.parse_obj({"e": None})
+                    holder.parse_obj({"e": None})
             except Exception as e:  # noqa: BLE001
                 ck.fail({**base, "mechanism": "null_not_accepted"}, inp, f"null is listed but rejected: {type(e).__name__}")
         # default rendered as the corresponding member
-        if opts.get("set_default_enum_member") and case.default is not NO_DEFAULT and enums and model != "typing.TypedDict":
+        if (opts.get("set_default_enum_member") and case.default is not NO_DEFAULT and enums and model != "typing.TypedDict"
+                and case.via == "property"):
             d = case.default
             if any(typed(v) == typed(d) for v in non_null):
                 try:
@@ -551,11 +651,27 @@ def campaign_e2e(ck: Check, n: int) -> None:
     rng = ck.rng.fork("e2e")
     for case, cfg, model, opts in E2E_CORPUS:
         e2e_case(ck, camp, case, cfg, model, opts)
+    # the systematic scope of enum_callers (all spellings of mro / a keyword / an Enum hook / a dunder / a private name / an Enum
+    # property in one enum, x the option vectors that fold spellings together, at the JSON Schema and the GraphQL call site)
+    for values, cfg, model, position in enum_callers.systematic_scope():
+        e2e_case(ck, camp, Case("string", values, via=position), cfg, model, {})
     for i in range(n):
         opts = dict(rng.choice(OPTS_POOL))
         case = gen_case(rng, with_default=bool(opts.get("set_default_enum_member")) or rng.chance(1, 4))
         cfg = rng.choice(ENUM_CFGS) if rng.chance(1, 2) else Cfg()
         model = e2e.MODEL_KINDS[i % len(e2e.MODEL_KINDS)]
+        # every third case: the enum keyword somewhere else than an inline property (other callers of parse_enum), and every fourth
+        # of the string enums lists spellings of reserved names (values that only SANITISE to mro / a keyword / an Enum hook)
+        if case.ty == "string" and None not in case.values and case.varnames is None and rng.chance(1, 4):
+            gq = rng.chance(1, 2)
+            vals = enum_callers.gen_reserved_values(rng, rng.range(2, 6), graphql=gq)
+            if vals:
+                case = Case("string", vals, via="graphql" if gq else rng.choice(enum_callers.JSON_POSITIONS))
+                cfg = rng.choice(enum_callers.ENUM_NAME_CFGS)
+        elif rng.chance(1, 3):
+            case.via = rng.choice(enum_callers.JSON_POSITIONS)
+            if enum_callers.graphql_compatible(case.ty, case.values, case.varnames) and rng.chance(1, 2):
+                case.via = "graphql"
         e2e_case(ck, camp, case, cfg, model, opts)
     camp.wall_s = time.time() - t0
 
@@ -567,7 +683,7 @@ def enum_table() -> dict[str, str]:
 
 
 def case_of(w: dict) -> Case:
-    c = Case(w.get("type"), w["enum"], w.get("x-enum-varnames"))
+    c = Case(w.get("type"), w["enum"], w.get("x-enum-varnames"), via=w.get("via", "property"))
     if "default" in w:
         c.default = w["default"]
     return c
@@ -588,6 +704,10 @@ def known_findings(ck: Check) -> None:
             from . import c09_defaults
 
             c09_defaults.check_dcase(probe, camp, w)
+        elif "okind" in w:
+            from . import c09_order
+
+            c09_order.check_ocase(probe, camp, w)
         else:
             e2e_case(probe, camp, case_of(w), cfg_of(w), w["model"], w.get("opts", {}))
         if probe.failures:
@@ -604,9 +724,22 @@ def search_enums(ck: Check) -> None:
             continue
         for model in ("pydantic_v2.BaseModel", "dataclasses.dataclass"):
             for opts in ({}, {"set_default_enum_member": True}, {"enum_field_as_literal": "all"}):
-                e2e_case(ck, camp, case_of(inp), Cfg(), model, opts)
+                e2e_case(ck, camp, case_of(inp), cfg_of(inp) if inp.get("cfg_fields") else Cfg(), model, opts)
                 if ck.failures:
                     return
+    # spellings of every reserved name in one enum, at every caller of the enum resolver, under the option vectors that fold them
+    t0 = time.time()
+    for ti, target in enumerate(enum_callers.RESERVED_TARGETS):
+        for ci, cfg in enumerate(enum_callers.ENUM_NAME_CFGS[:7]):
+            for position in (enum_callers.POSITIONS if (ti + ci) % 4 == 0 else ("graphql", "property")):
+                vals = [v for v in enum_callers.spellings(target)
+                        if position != "graphql" or enum_callers.graphql_compatible("string", [v], None)][:7]
+                if vals:
+                    e2e_case(ck, camp, Case("string", vals, via=position), cfg, e2e.EXECUTABLE_KINDS[(ti + ci) % 4], {})
+                if ck.failures:
+                    return
+        if time.time() - t0 > 40:
+            break
     vocab = ["a", "A", "a b", "a-b", "a'", "mro", "class", "", "1", "x\\", "é"]
     for i, a in enumerate(vocab):
         for b in vocab[i + 1 :]:
@@ -625,6 +758,10 @@ def run(ck: Check) -> None:
     quick = ck.tier == "quick"
     ck.translate("Unicode", uni.generate())
     ck.translate("EscTables", esc.generate())
+    ck.translate("EnumSites", enum_sites.generate())
+    from ..translate import parse_passes
+
+    ck.translate("ParsePasses", parse_passes.generate())  # the order of the post-passes of Parser.parse (Props/C09 `parse_pass_order_ok`)
     ck.prove()
     ck.assumptions += [
         "C07's assumptions (generated character tables, CaseOK for str.lower/upper, PrefixOK) for the member names",
@@ -637,14 +774,20 @@ def run(ck: Check) -> None:
     ]
     campaign_parse(ck, 900 if quick else 9000)
     campaign_literal(ck, 300 if quick else 3000)
+    campaign_gql(ck, 300 if quick else 3000)
     campaign_e2e(ck, 700 if quick else 7000)
     campaign_observation(ck)
     from . import c09_defaults
 
     c09_defaults.campaign_steps(ck, 400 if quick else 4000)
     c09_defaults.campaign_defaults(ck, 260 if quick else 2600)
+    from . import c09_order  # the reuse / collapse / default-member family and the order of the post-passes of Parser.parse
+
+    c09_order.campaigns(ck, quick)
+    ck.search_hooks.append(c09_order.search_order_first)
     ck.search_hooks.append(c09_defaults.search_defaults)
     ck.search_hooks.append(search_enums)
+    ck.search_hooks.append(c09_order.search_order_last)
     known_findings(ck)
 
 
@@ -656,6 +799,10 @@ def replay(ck: Check, path: str) -> int:
         from . import c09_defaults
 
         c09_defaults.check_dcase(ck, camp, inp)
+    elif "okind" in inp:
+        from . import c09_order
+
+        c09_order.check_ocase(ck, camp, inp)
     elif "enum" in inp and "model" in inp:
         e2e_case(ck, camp, case_of(inp), cfg_of(inp), inp["model"], inp.get("opts", {}))
     for f in ck.failures:
